@@ -149,11 +149,15 @@ func (x *exec) panicked(prop, what string, p *panicInfo) {
 // ---- head checks (C09) ----
 
 func (x *exec) checkHead(n *simNode, via string, start Ref, call func() (common.NodeRef, error)) {
+	x.checkHeadP("C09", n, via, start, call)
+}
+
+func (x *exec) checkHeadP(prop string, n *simNode, via string, start Ref, call func() (common.NodeRef, error)) {
 	m := n.m
 	var got common.NodeRef
 	var err error
 	if p := guard(func() { got, err = call() }); p != nil {
-		x.panicked("C09", via, p)
+		x.panicked(prop, via, p)
 		return
 	}
 	hl, okL, viaL := m.Ghost(start, RelLegacy)
@@ -161,7 +165,7 @@ func (x *exec) checkHead(n *simNode, via string, start Ref, call func() (common.
 	x.log.Add(fmt.Sprintf("%s %v -> %v %v", via, start, n.refOf(got), err != nil))
 	if !okL {
 		if err == nil {
-			x.viol("C09", "C09/"+via+"/no-error-for-unknown-start", fmt.Sprintf("start %v does not exist, got %v", start, n.refOf(got)))
+			x.viol(prop, prop+"/"+via+"/no-error-for-unknown-start", fmt.Sprintf("start %v does not exist, got %v", start, n.refOf(got)))
 		}
 		return
 	}
@@ -176,7 +180,7 @@ func (x *exec) checkHead(n *simNode, via string, start Ref, call func() (common.
 	}
 	if err != nil {
 		if viaL && viaR {
-			x.viol("C09", "C09/"+via+"/error-on-viable-head", fmt.Sprintf("start %v expected %v, got error %v", start, hl, err))
+			x.viol(prop, prop+"/"+via+"/error-on-viable-head", fmt.Sprintf("start %v expected %v, got error %v", start, hl, err))
 		}
 		return
 	}
@@ -184,7 +188,7 @@ func (x *exec) checkHead(n *simNode, via string, start Ref, call func() (common.
 	if (viaL && g == hl) || (viaR && g == hr) {
 		return
 	}
-	x.viol("C09", "C09/"+via+"/head-mismatch", fmt.Sprintf("start %v expected %v (legacy graph) or %v (readme graph), got %v", start, hl, hr, g))
+	x.viol(prop, prop+"/"+via+"/head-mismatch", fmt.Sprintf("start %v expected %v (legacy graph) or %v (readme graph), got %v", start, hl, hr, g))
 }
 
 // ---- audit (C11) ----
@@ -811,9 +815,9 @@ func (x *exec) doUpdate(n *simNode, op *Op, relaxedFork bool) {
 				break
 			}
 		}
-		if p := guard(func() { fc.Head() }); p != nil {
-			x.panicked("C10", "Head-after-sink-failure", p)
-		}
+		// the checkpoints advanced and the pin is gone: the head is found from the new
+		// justified node, which lies in the finalized subtree (all of it retained)
+		x.checkHeadP("C10", n, "Head-after-sink-failure", m.HeadStart(), func() (common.NodeRef, error) { return fc.Head() })
 		x.stop = true // partially pruned state: the run ends here
 		return
 	}
